@@ -1,1 +1,22 @@
-fn main() { println!("dlv"); }
+//! dlv — conformance harness binding the TLA+ specifications in /verif/spec to the real darklua_core
+//! built from /repo's working tree. One subcommand per driver; each reads cases (ndjson) and writes
+//! observations (ndjson) that the trace specifications validate.
+mod util;
+mod resolve;
+
+fn main() {
+    let args: Vec<String> = std::env::args().skip(1).collect();
+    util::install_quiet_panic_hook();
+    let code = match args.first().map(String::as_str) {
+        Some("resolve") => resolve::main(&args[1..]),
+        Some("version") => {
+            println!("dlv 0.1");
+            0
+        }
+        _ => {
+            eprintln!("usage: dlv <resolve|...> ...");
+            2
+        }
+    };
+    std::process::exit(code);
+}
